@@ -435,14 +435,8 @@ func c07Keys(c *Ctx, b *boardModel, rule string) bool {
 				v = ia.X
 			}
 			for _, ix := range idx {
-				phi, isPhi := stripConv(ix).(*ssa.Phi)
-				if !isPhi {
-					a.ranges = append(a.ranges, [2]int64{-1, -1})
-					continue
-				}
-				iv, ok := inductionVar(phi)
-				lo, hi, ok2 := iv.constRange()
-				if !ok || !ok2 {
+				lo, hi, ok := countedRange(ix)
+				if !ok {
 					a.ranges = append(a.ranges, [2]int64{-1, -1})
 					continue
 				}
